@@ -6,6 +6,7 @@ from __future__ import annotations
 
 from enum import Enum, auto
 from abc import ABC, abstractmethod
+from collections import defaultdict
 from functools import reduce
 from itertools import chain, count
 from inspect import signature
@@ -32,6 +33,25 @@ class Direction(Enum):
             return Direction.DOWN
         else:
             return Direction.UP
+
+
+class _KnownLabels(dict):
+    """
+    A view on labels that looks up the label a variable already has, and hands
+    out none.
+    """
+
+    def __init__(self, labels: dict[TypeVariable, str]):
+        super().__init__()
+        self.labels = labels
+
+    def __missing__(self, key: TypeVariable) -> str:
+        if key in self.labels:
+            return self.labels[key]
+        for var in list(self.labels):
+            if var.follow() is key:
+                return self.labels[var]
+        return "τ"
 
 
 class Variance(Enum):
@@ -385,18 +405,29 @@ class TypeInstance(Type):
                     #     result = "?"
 
         if with_constraints:
+            # Sets of variables and constraints have no stable order, and a
+            # variable that occurs only here gets its number when it is first
+            # printed: order the items by their text without numbers, then by
+            # their text with the labels given out so far, and only then
+            # print them
+            anon = (defaultdict(lambda: "τ"),) + args[1:]
+            known = (_KnownLabels(labels),) + args[1:]
             result_aux = []
             for v in self.variables():
-                if v.lower:
-                    result_aux.append(f"{v.text(*args)} >= {v.lower}")
-                if v.upper:
-                    result_aux.append(f"{v.text(*args)} <= {v.upper}")
+                for rel, bound in ((">=", v.lower), ("<=", v.upper)):
+                    if bound:
+                        result_aux.append((
+                            f"{v.text(*anon)} {rel} {bound}",
+                            f"{v.text(*known)} {rel} {bound}",
+                            lambda v=v, rel=rel, bound=bound:
+                                f"{v.text(*args)} {rel} {bound}"))
 
             result_aux.extend(
-                c.text(*args) for c in self.constraints())
+                (c.text(*anon), c.text(*known), lambda c=c: c.text(*args))
+                for c in self.constraints())
             if result_aux:
-                # sets of variables and constraints have no stable order
-                result += f" [{', '.join(sorted(result_aux))}]"
+                result_aux.sort(key=lambda item: item[:2])
+                result += f" [{', '.join(f() for *_, f in result_aux)}]"
         return result
 
     def fix(self, prefer_lower: bool = True) -> TypeInstance:
